@@ -16,7 +16,7 @@
    not destroy the object they are being called by; [Forall top_ok ops] -- event numbers
    >= 0.  Every theorem holds for every fuel for which the run completes. *)
 From Coq Require Import ZArith List Bool.
-From Tickit Require Import BindDefs BindSpec BindProofs BindCorollaries.
+From Tickit Require Import BindDefs BindSpec BindProofs BindAbs BindRefine BindCorollaries.
 Import ListNotations.
 Local Open Scope Z_scope.
 
@@ -102,6 +102,20 @@ Theorem C16_unbind_is_last : forall env, env_ok env -> forall ops, Forall top_ok
   has flags EV_UNBIND = true -> forall flags', ~ In (TCallB name flags') t2.
 Proof. exact unbind_is_last. Qed.
 Print Assumptions C16_unbind_is_last.
+
+(* "tombstones + deferred sweep = immediate removal": every completed run is matched, event
+   for event and result for result, by a run of the machine of BindAbs.v -- the same API
+   over a tombstone-free list from which a binding is removed the moment it is unbound,
+   consumed or destroyed, with no iteration guard and no sweep, whose iteration cursor is
+   a name and therefore survives the removal of the node it stands on; at the end the two
+   lists are equal.  ([aeval] is relational and fuel-free; the handlers are the same
+   [env].) *)
+Theorem C16_refines : forall env, env_ok env -> forall ops, Forall top_ok ops ->
+  forall fuel w r, run fixed env fuel ops = Ok (w, r) ->
+  exists aw, aeval env (AActs ops) ainit aw r /\
+             atr aw = wt w /\ al aw = first (ws w) /\ an aw = wn w.
+Proof. exact refines. Qed.
+Print Assumptions C16_refines.
 
 (* the two one-shot deviations of the unchanged library (DESIGN section 11, #15), on the
    model of the pinned run_event / run_event_whilefalse: a one-shot handler that re-emits
